@@ -802,6 +802,11 @@ func Prelude(t *rapid.T) []*Stmt {
 	if Chance(t, 30, "preludeBig") {
 		k = Uniform(t, 301, "preludeN2")
 	}
+	return PreludeN(t, k)
+}
+
+// PreludeN is Prelude with a given number of declarations.
+func PreludeN(t *rapid.T, k int) []*Stmt {
 	var out []*Stmt
 	for i := 0; i < k; i++ {
 		var lit *Expr
